@@ -1773,9 +1773,13 @@ class Scheduler:
         if not has_updated and not self.stop_mode:
             # Has the workflow stalled?
             # (Not if tasks spawned in this iteration, still runahead-limited,
-            # can be released.)
+            # will be released at the start of the next one.)
             self.pool.compute_runahead()
-            if not self.pool.release_runahead_tasks():
+            limit = self.pool.runahead_limit_point
+            if limit is None or not any(
+                itask.state.is_runahead and itask.point <= limit
+                for itask in self.pool.get_tasks()
+            ):
                 self.check_workflow_stalled()
 
         # Sleep a bit for things to catch up.
